@@ -219,3 +219,8 @@ def run(ctx):
     r1_3(ctx)
     r1_4(ctx)
     r1_5(ctx)
+    # the gates read task.input_task_list: they respect the *declared* dependencies only if the one operation that rewrites these
+    # lists temporarily (the backward run) swaps them back on every exit, for every setting of its options (C17)
+    from .C17 import r17_1, r17_2
+    r17_1(ctx)
+    r17_2(ctx)
